@@ -57,6 +57,21 @@ CHECKS = {
   note="Trusts ref/bitw (ISO/IEC 14496-10 7.4.1, 9.1); widths <= 32 bits, ue <= 2^32-2.",
   technique="runtime monitor: exhaustive small-alphabet enumeration and random sequences against a reference bit/escape model",
   design_ref="DESIGN.md §3 C13"),
+ "C14": dict(
+  text="Reference-model monitor: NAL unit lists (all size combinations 1..40 for <=3 units in the quick tier so that every start-code alignment mod 8 and every tail length occurs, larger random lists, every 3/4-byte start-code mix, sub-slices at odd offsets with guard bytes) are rendered by ref/annexb; the word-at-a-time scanner (hook avc.VerifStartCodePositions) is compared with a byte-wise scan and every conversion/walker helper of avc and hevc with the obvious function of the generating list; in-place functions get private copies and the untouched-input clause is checked.",
+  note="Trusts ref/annexb (byte-wise scanner and builders); emulation-free NAL payloads only, as the statement requires.",
+  technique="runtime monitor: generated NAL unit lists as ground truth, differential comparison of the fast scanner with a byte-wise reference",
+  design_ref="DESIGN.md §3 C14"),
+ "C15": dict(
+  text="Reference-serializer monitor: 12 k (quick) / 400 k (thorough) value records for AVC/HEVC SPS, PPS and slice headers are serialized by independent implementations of the standards' syntax tables (ref/h264, ref/h265) and parsed by the library; every coded element the parser exposes, width/height by the cropping formula, header Size, PPS->SPS id resolution with several parameter sets, configuration records (3 ways) and codec strings (parsed back) are compared; per-branch hit counts in evidence.",
+  note="Trusts the serializers' reading of ISO/IEC 14496-10 7.3 / 23008-2 7.3 (each reported mismatch was confirmed against the standard text); inferred defaults are not compared; three parser defects are recorded known findings.",
+  technique="runtime monitor: independent syntax serializers as oracle for the parsers over generated value records",
+  design_ref="DESIGN.md §3 C15"),
+ "C16": dict(
+  text="Resource monitor: ~49 M evaluations (quick) of every exported byte-taking function of avc, hevc, sei, aac, av1, the protect-range helpers and the nallister/pslister binaries on valid units mutated by bit flips, truncation at every byte, forced huge Exp-Golomb values, hostile length prefixes and degenerate strings; library calls run in probe subprocesses watched for panics, CPU (<= 2 s + 20 us/byte) and bytes allocated (<= 8 MiB + 1 KiB/byte), with the looping function named in the finding.",
+  note="Bounds are loose constants; inputs are small elementary-stream units; a hang class confirmed once is aborted early on repeats (presumed-repeat, counted in evidence).",
+  technique="runtime monitor: fuzz-style hostile workload in sandboxed probe processes with panic/CPU/allocation oracles",
+  design_ref="DESIGN.md §3 C16"),
  "C17": dict(
   text="Round-trip monitor: 150 k (quick) / 10 M (thorough) SEI message lists through WriteSEIMessages -> independent framing model (ref/sei) -> ExtractSEIData and avc/hevc ParseSEINalu, plus the complete flag lattice of the typed messages (Decode(Payload(x)) == x, Size == len(Payload)) and pass-through messages.",
   note="Trusts ref/sei framing and bit layouts; empty message lists are outside the domain (an SEI RBSP has at least one message).",
